@@ -48,6 +48,20 @@ def check(run):
             else:
                 ops.append(dict(op=o, arg=run.rng.choice(dom)))
         plans.append(mkplan(mode, ops, ordered=(i % 2 == 0)))
+    # grow large then shrink: insertion into spare capacity vs reallocation, removal down to empty
+    for mode in ("asc", "desc", "key"):
+        dom = list(range(1, 41)) if mode != "key" else [k * 10 + t for k in range(1, 14) for t in range(0, 3)]
+        ops = [dict(op="New", arg=0, vals=[run.rng.choice(dom) for _ in range(run.rng.choice([0, 7, 33]))])]
+        vals = list(ops[0]["vals"])
+        for j in range(90 if run.quick() else 400):
+            v = run.rng.choice(dom)
+            ops.append(dict(op="Add", arg=v))
+            vals.append(v)
+        run.rng.shuffle(vals)
+        for v in vals:
+            ops.append(dict(op=run.rng.choice(["Remove", "Remove", "Index"]), arg=v))
+        ops += [dict(op="RemoveAt", arg=0)] * 5 + [dict(op="Add", arg=dom[0])]
+        plans.append(mkplan(mode, ops, ordered=False))
     segs = execute(run, plans)
     if len(segs) != len(plans):
         raise Inconclusive("driver returned %d segments for %d plans" % (len(segs), len(plans)))
